@@ -3,12 +3,43 @@ import WrapModel.Model.Hex
 import WrapModel.Model.Parse
 import WrapModel.Model.Dump
 import WrapModel.Model.IDump
+import WrapModel.Model.Pybind
 
 namespace WrapModel.Driver
 open WrapModel
 
 def okLine (s : String) : String := "ok\t" ++ Hex.encode s
 def errLine (e : Err) : String := "err\t" ++ e.toString
+
+/-- lists travel as elements each preceded by U+001F -/
+def decodeList (s : String) : List String :=
+  if s.isEmpty then [] else (s.drop 1).toString.splitOn "\x1f"
+
+def decodeAll : List String → Option (List String)
+  | [] => some []
+  | h :: t =>
+    match Hex.decode h, decodeAll t with
+    | some a, some r => some (a :: r)
+    | _, _ => none
+
+def parseInst (text : String) : Except Err (List Inst.IDecl) :=
+  match Parse.parseModule text with
+  | .error e => .error e
+  | .ok m => Inst.instModule m
+
+def handlePybind (args : List String) : String :=
+  match args with
+  | [text, tpl, moduleName, top, boost, ignore, subs] =>
+    let cfg : Pybind.Cfg := { moduleName := moduleName, top := decodeList top, useBoost := boost == "1",
+                              ignore := decodeList ignore }
+    let submodules := if subs == "-" then none else some (decodeList subs)
+    match parseInst text with
+    | .error e => errLine e
+    | .ok im =>
+      match Pybind.wrapInstantiated cfg tpl moduleName submodules im with
+      | .ok out => okLine out
+      | .error e => errLine e
+  | _ => "bad\targs"
 
 def handle (fields : List String) : String :=
   match fields with
@@ -29,6 +60,10 @@ def handle (fields : List String) : String :=
         match Inst.instModule m with
         | .ok im => okLine (IDump.imodule im)
         | .error e => errLine e
+  | "pybind" :: rest =>
+    match decodeAll rest with
+    | some args => handlePybind args
+    | none => "bad\thex"
   | _ => "bad\top"
 
 end WrapModel.Driver
